@@ -92,7 +92,7 @@ def oor_cfg(ctx):
 
 def model_check(ctx):
     thorough = ctx.tier == "thorough"
-    plan = [("Group.mc.one.cfg", 8, 1500), ("Group.mc.two.cfg", 8, 2400), ("Group.oor.cfg", 3, 600),
+    plan = [("Group.mc.one.cfg", 8, 2400), ("Group.mc.two.cfg", 8, 2400), ("Group.oor.cfg", 3, 600),
             ("Group.mc.retry.cfg", 3, 600)] if thorough else \
            [("Group.mc.quick1.cfg", 6, 400), ("Group.mc.quick2.cfg", 3, 400), ("Group.oor.cfg", 3, 400), ("Group.mc.retry.cfg", 3, 400)]
     bugs = BUGS_ALL if thorough else BUGS_QUICK
